@@ -31,15 +31,18 @@ func HookInto(rec *sim.Recorder) {
 
 // Cfg is the per-run configuration.
 type Cfg struct {
-	R     int64  `json:"R"` // resend interval, µs
-	T     int64  `json:"T"` // response timeout, µs
-	H     int64  `json:"H"` // heartbeat interval, µs
-	TCP   bool   `json:"tcp"`
-	Group bool   `json:"group"` // run through GroupTunnel
-	Q     int64  `json:"q"`     // real-time quiesce pause, µs (0 in a bubble)
-	Mode  string `json:"mode"`
-	Slack int64  `json:"slack"` // real-time tolerance for timing clauses, µs
-	Poll  int64  `json:"poll"` // socket hand-off retry period, µs
+	R         int64  `json:"R"` // resend interval, µs
+	T         int64  `json:"T"` // response timeout, µs
+	H         int64  `json:"H"` // heartbeat interval, µs
+	TCP       bool   `json:"tcp"`
+	Group     bool   `json:"group"` // run through GroupTunnel
+	Q         int64  `json:"q"`     // real-time quiesce pause, µs (0 in a bubble)
+	Mode      string `json:"mode"`
+	Pause     int64  `json:"pause"`     // router: post-send pause, µs
+	Retain    int    `json:"retain"`    // router: retain count (0 = default)
+	DiscDelay int64  `json:"discdelay"` // socket write time of a DiscReq, µs
+	Slack     int64  `json:"slack"`     // real-time tolerance for timing clauses, µs
+	Poll      int64  `json:"poll"`      // socket hand-off retry period, µs
 }
 
 // Step is one environment choice.
@@ -100,6 +103,7 @@ type World struct {
 func NewWorld(rec *sim.Recorder, cfg Cfg, quiesce func()) *World {
 	w := &World{Rec: rec, Cfg: cfg, Quiesce: quiesce, busy: map[int]bool{}, closing: map[int]bool{}}
 	w.Sock = sim.NewMemSock(rec, cfg.TCP, time.Duration(cfg.Poll)*time.Microsecond)
+	w.Sock.DiscDelay = time.Duration(cfg.DiscDelay) * time.Microsecond
 	w.Net = &sim.Net{TCP: cfg.TCP}
 	w.Gw = sim.NewGateway(rec, cfg.TCP)
 	w.Sock.OnIn = func(f sim.Frame) {
